@@ -593,6 +593,67 @@ def check_nonfinite(ctx, model):
             ctx.disagree("estim.opnorm.property", case0, bad, None, oracle=oracle)
 
 
+def oracle_nonsym(case):
+    """C17_rayleigh_abs_le_opNorm on the real code: |mu| <= ||B||_2 for any (non-symmetric) real square B, every budget"""
+    import scico.numpy as snp
+    from scico.linop import MatrixOperator, power_iteration
+
+    Bm = np.asarray(case["B"], dtype=np.float64)
+    B = MatrixOperator(snp.array(Bm))
+    nB = float(np.linalg.norm(Bm, 2))
+    for k in case["budgets"]:
+        r = _impl(lambda: power_iteration(B, maxiter=k, key=G.make_key(case.get("key"))))
+        if r[0] == "err":
+            return {"why": "power_iteration raised", "maxiter": k, "error": r[2]}
+        mu = complex(np.asarray(r[1][0]))
+        if abs(mu) > nB * (1 + 1e-9) + 1e-300:
+            return {"why": "|mu| exceeds the induced 2-norm of the operator", "maxiter": k, "mu": str(mu), "norm": nB, "B": Bm.tolist()}
+    return None
+
+
+ORACLES["nonsym"] = oracle_nonsym
+
+
+def check_nonsymmetric(ctx, model, n):
+    """power_iteration accepts any LinearOperator: random real non-symmetric square matrices (the Rayleigh quotient is real) against
+    the model's loop, and the two-sided bound"""
+    import scico.numpy as snp
+    from scico.linop import MatrixOperator, power_iteration
+
+    rng = ctx.rng
+    for _ in range(n):
+        d = int(rng.integers(1, 4))
+        Bm = common.dyadic(rng, (d, d), bits=2, scale=3.0)
+        key = [None, 1, 2][int(rng.integers(0, 3))]
+        B = MatrixOperator(snp.array(Bm))
+        v0 = G.realview_vec(G.start_vector(B, key))
+        case0 = {"what": "nonsym", "B": Bm.tolist(), "key": key, "budgets": [1, 2, 3, 5, 10]}
+        ctx.count("op:non-symmetric")
+        for k in case0["budgets"]:
+            ctx.case({"what": "nonsym", "n": d, "budget": k}, json.dumps([Bm.tolist(), key, k]))
+            r = _impl(lambda: power_iteration(B, maxiter=k, key=G.make_key(key)))
+            m = _model(model, "power", B=rows(Bm), v0=fs2b(v0), maxiter=int(k))
+            if r[0] == "err" or m[0] == "err":
+                ctx.disagree("estim.power.reject", {**case0, "budget": k}, list(map(str, r)), list(map(str, m)), oracle=oracle)
+                continue
+            mu, v = r[1]
+            mu = complex(np.asarray(mu))
+            if mu.real == 0.0 and b2f(m[1]["mu"]) == 0.0:
+                ctx.count("branch:zero-exit")
+            okk = abs(mu.imag) == 0 and _rel(mu.real, b2f(m[1]["mu"]), 64 * k) and common.allclose(np.asarray(v), common.b2fs(m[1]["v"]), 64 * k, 1e-8)
+            if not okk:
+                # the iterate of a non-normal matrix can be ill-conditioned: a near-cancelling Rayleigh quotient ends the comparison
+                if abs(mu.real) <= 1e-6 * float(np.linalg.norm(Bm, 2)):
+                    ctx.count("nonsym:discarded-near-zero-quotient")
+                    break
+                ctx.disagree("estim.power", {**case0, "budget": k}, {"mu": str(mu), "v": np.asarray(v).tolist()},
+                             {"mu": b2f(m[1]["mu"]), "v": common.b2fs(m[1]["v"])}, oracle=oracle)
+                break
+        bad = oracle_nonsym(case0)
+        if bad is not None:
+            ctx.disagree("estim.power.property", case0, bad, None, oracle=oracle)
+
+
 def check_pdhg(ctx, model, case):
     import scico.numpy as snp
     from scico.optimize import PDHG
@@ -1000,6 +1061,10 @@ def run_case(ctx, model, case):
         r = oracle_power_vector(case)
         if r is not None:
             ctx.disagree("estim.power.vector", case, r, None, oracle=oracle)
+    elif w == "nonsym":
+        r = oracle_nonsym(case)
+        if r is not None:
+            ctx.disagree("estim.power.property", case, r, None, oracle=oracle)
     elif w == "nonfinite":
         r = oracle_nonfinite(case)
         if r is not None:
@@ -1036,6 +1101,7 @@ def correspond(ctx, model):
             check_estimates(ctx, model, {"kind": "matrix-real", "A": A_, "flavour": "gapped"}, key, ladder + [top], converged_check=True)
     check_nilpotent(ctx, model)
     check_nonfinite(ctx, model)
+    check_nonsymmetric(ctx, model, ctx.n(16, 120))
     for i in range(ctx.n(60, 250)):
         desc = G.gen_operator(rng)
         key = [None, 0, 1, 2, 3][int(rng.integers(0, 5))]
